@@ -272,8 +272,19 @@ def sl_step_case(ramp0=True, dtv=1, mass=1000):
                 max_paths=20000, timeout_ms=60000, check_side=False)
 
 
+def posted_profile_cases(tier):
+    """the speed-point profile the braking curve is built from is never above a posted restriction where it applies: the insert_speed /
+    add_speeds harnesses of C02, run under this property as well (a restriction that disappears from the profile is an overspeed here)"""
+    import C02
+    out = []
+    for c in C02.m_cases(tier):
+        c.prop = "C03"
+        out.append(c)
+    return out
+
+
 def m_cases(tier):
-    cs = []
+    cs = posted_profile_cases(tier)
     cs.append(sl_step_case())
     cs.append(recalc_case(1))
     cs.append(recalc_case(2))
